@@ -15,10 +15,12 @@ import isogen
 import readcheck
 
 LEVEL = "proof"
-CONE = ["Props/C12.v", "Props/C12Tree.v", "Proofs/LayoutTreeMono.v", "Proofs/LayoutTreeRefute.v", "Proofs/LayoutTreeKit.v", "Proofs/LayoutTree.v", "Proofs/LayoutTree2.v",
+CONE = ["Props/C12.v", "Props/C12Tree.v", "Props/C12Frag.v", "Proofs/FragLayout.v", "Proofs/LayoutTreeMono.v", "Proofs/LayoutTreeRefute.v", "Proofs/LayoutTreeKit.v", "Proofs/LayoutTree.v", "Proofs/LayoutTree2.v",
         "Proofs/LayoutTree3.v", "Proofs/LayoutTreeEx.v", "Proofs/LayoutKit.v", "Proofs/LayoutProofs.v", "Proofs/LayoutMore.v", "Proofs/LayoutOpen.v", "Proofs/LayoutShift.v",
         "Proofs/LayoutTailFixed.v", "Proofs/LayoutTailTbl.v"]
-ITER = {b"moov", b"trak", b"mdia", b"minf", b"stbl", b"udta", b"mvex"}
+ITER = {b"moov", b"trak", b"mdia", b"minf", b"stbl", b"udta", b"mvex", b"dinf"}
+# sample entries that search their child boxes for the codec configuration (avc1 -> avcC, mp4a -> esds): boxes may be inserted among the child boxes
+ENTRY_ITER = {b"avc1", b"mp4a"}
 PADDABLE = {b"mvhd", b"tkhd", b"mdhd", b"vmhd", b"smhd", b"stts", b"ctts", b"stsc", b"stsz", b"stss", b"stco", b"co64", b"hdlr"}
 LARGE_OK = ITER | PADDABLE | {b"stsd", b"dinf", b"ftyp", b"free", b"meta", b"ilst"}
 
@@ -53,6 +55,10 @@ def transform(node, rng, p_ins=0.5, p_perm=0.5, p_large=0.25, p_pad=0.4):
             for _ in range(rng.randint(1, 3)):
                 kids.insert(rng.randint(0, len(kids)), junk(rng))
         n.items = kids
+    if n.typ in ENTRY_ITER and rng.random() < max(p_ins, 0.0) and p_ins > 0:
+        first = next((i for i, k in enumerate(n.items) if isinstance(k, isogen.Box)), len(n.items))
+        for _ in range(rng.randint(1, 2)):
+            n.items.insert(rng.randint(first, len(n.items)), junk(rng))
     if n.typ in PADDABLE and rng.random() < p_pad:
         n.pad = bytes(rng.randrange(256) for _ in range(rng.choice([1, 4, 8, 13])))
     if n.typ in LARGE_OK and rng.random() < p_large:
@@ -148,7 +154,7 @@ def logical(impl, payload_start):
 
 
 def check(rep):
-    proof_ok, details = common.proof_layer(rep, ["C12", "C12Tree"], CONE, extra_targets=["theories/Extract/Extract.vo"])
+    proof_ok, details = common.proof_layer(rep, ["C12", "C12Tree", "C12Frag"], CONE, extra_targets=["theories/Extract/Extract.vo"])
     with common.Lock():
         hb_ok, hb_log = common.harness_build(["run"])
         ob_ok, ob_log = common.ocaml_build()
@@ -166,7 +172,8 @@ def check(rep):
             layout = "mdat_first" if v % 3 != 2 else "moov_first"
             extra = [] if v % 2 == 0 else [junk(rng) for _ in range(rng.randint(1, 2))]
             t2 = copy.deepcopy(trs)
-            r, tracks, nodes = isogen.build_movie(t2, layout, extra_top=extra, udta=copy.deepcopy(udta) if g % 2 else None, large_mdat=(v in (3, 5)))
+            r, tracks, nodes = isogen.build_movie(t2, layout, extra_top=extra, udta=copy.deepcopy(udta) if g % 2 else None, large_mdat=(v in (3, 5)),
+                                                  mdat_to_eof=(layout == "moov_first" and g % 3 == 0))
             if v > 0 and layout == "mdat_first":
                 # transform everything after the mdat (the moov) and the ftyp; offsets do not move
                 nodes = [transform(nodes[0], rng) if False else nodes[0]] + nodes[1:-1] + [transform(nodes[-1], rng)]
